@@ -1,7 +1,8 @@
 """Mechanical mutation sweep: a complement to the hand-made seeded changes of DESIGN.md section 9.
 
     python -m hv.mutate list                      -> number of mutation sites per operator
-    python -m hv.mutate run N [--seed S] [--jobs J] [--out FILE]
+    python -m hv.mutate run N [--seed S] [--stride K] [--out FILE]
+    python -m hv.mutate full [FILE]               -> survivors of the reduced battery against every full quick tier
 
 For each sampled site one mutant of hidc is written into a scratch worktree (never into /repo), the 45 pinned
 tests are run on it (mutants they kill are discarded: the brief asks for changes the existing tests accept), and
@@ -119,8 +120,47 @@ def battery_items(stride):
     return sel
 
 
+def full_pass(out, base='/repo'):
+    """Survivors of the reduced battery are run against every full quick tier (stopping at the first kill)."""
+    recs = [json.loads(l) for l in open(out)]
+    wt = f'/tmp/hv_mutf_{os.getpid()}'
+    sh(['git', '-C', base, 'worktree', 'add', '-f', '--detach', wt, 'HEAD'])
+    env = dict(os.environ)
+    env['HV_REPO'] = wt
+    env['HV_OUT_DIR'] = wt + '_out'
+    try:
+        for r in recs:
+            if r['result'] != 'survived_battery' or 'full' in r:
+                continue
+            sh(['git', '-C', wt, 'checkout', '--', '.'])
+            apply_site(wt, tuple(r['site']))
+            r['full'] = 'survived_all_quick_tiers'
+            for c in BATTERY:
+                rc, o = sh(['/venv/bin/python', '-m', 'hv.check', c, '--tier', 'quick'], cwd=ROOT, env=env, timeout=7200)
+                if rc == 1:
+                    first = [l for l in o.split('\n') if l.startswith('  ')]
+                    r['full'] = 'killed_by_' + c
+                    r['first'] = first[0][:200] if first else ''
+                    break
+                if rc == 2:
+                    r['full'] = 'harness_error_in_' + c
+                    r['first'] = o[-300:]
+                    break
+            print(r['full'], r['site'][:3], r['site'][4], '->', r['site'][5], flush=True)
+            with open(out, 'w') as f:
+                for x in recs:
+                    f.write(json.dumps(x) + '\n')
+    finally:
+        sh(['git', '-C', base, 'worktree', 'remove', '--force', wt])
+        import shutil
+        shutil.rmtree(wt + '_out', ignore_errors=True)
+
+
 def main():
     a = sys.argv[1:]
+    if a and a[0] == 'full':
+        full_pass(a[1] if len(a) > 1 else os.path.join(ROOT, 'seeded', 'mutation_sweep.jsonl'))
+        return
     if a and a[0] == 'list':
         ss = sites('/repo')
         cnt = {}
